@@ -11,7 +11,7 @@ if TYPE_CHECKING:
 from ..pattern import Pattern, PSequence, PDict, PInterpolate
 from ..constants import *
 from ..exceptions import InvalidEventException
-from ..util import midi_note_to_frequency
+from ..util import midi_note_to_frequency, advance_on_tick_grid
 from ..io.output import OutputDevice
 import logging
 
@@ -51,6 +51,7 @@ class Track:
         self.event_stream: Pattern = PDict({})
         self.timeline: Timeline = timeline
         self.current_time: float = 0.0
+        self._tick_grid: tuple = (0.0, None)
         self.next_event_time: float = sys.maxsize
         self.max_event_count: int = max_event_count
         self.current_event_count: int = 0
@@ -278,10 +279,10 @@ class Track:
 
         #--------------------------------------------------------------------------------
         # Keep the track's time on the tick grid, so that floating-point error does not
-        # accumulate from one tick to the next.
+        # accumulate from one tick to the next. The grid is re-anchored at the current time
+        # when the timeline's ticks_per_beat changes, so that every tick lasts exactly one tick_duration.
         #--------------------------------------------------------------------------------
-        ticks_per_beat = self.timeline.ticks_per_beat
-        self.current_time = round((self.current_time + self.tick_duration) * ticks_per_beat) / ticks_per_beat
+        self.current_time, self._tick_grid = advance_on_tick_grid(self.current_time, self.timeline.ticks_per_beat, self._tick_grid)
 
     def reset_to_beat(self):
         """
